@@ -225,4 +225,4 @@ def main(ctx):
     guarded(ctx, 'sd-jwt audit', 'M', lambda: run(ctx, prog))
     # the issuer signature is selected and checked by the same parse_jwk / verify_decoded_signature as a plain JWT credential: C02's obligations, re-used
     import c02
-    guarded(ctx, 'issuer key selection (shared with plain JWT credentials)', 'M', lambda: c02.run(ctx, prog, only=r'^parse_jwk/|^verify_decoded_signature/'))
+    guarded(ctx, 'issuer key selection (shared with plain JWT credentials)', 'M', lambda: c02.run(ctx, prog, only=r'^parse_jwk/|^verify_decoded_signature/|^validate_decoded_credential/'))
